@@ -4,6 +4,6 @@
 set -e
 cd "$(dirname "$0")"
 export CARGO_NET_OFFLINE=true
-( cd coq && coq_makefile -f _CoqProject -o Makefile >/dev/null 2>&1 && timeout 3600 make -j16 )
+python3 -c "import sys; sys.path.insert(0, 'lib'); import vlib; c = vlib.Ctx('setup', 'quick', 1); sys.exit(0 if all(vlib.coq_make(c, d)[0] for d in vlib.coq_dirs()) else 1)"
 ( cd harness && timeout 7200 cargo build --offline --workspace )
 echo "setup done"
